@@ -12,6 +12,7 @@ variable {jid : Option Bytes} {U : Item → Prop} {NR : Prop} {p : Par} {c : Con
 /-! ### changing the parameters -/
 
 theorem Inv.repar (h : Inv jid U NR p c) (p' : Par) (hx : p'.x = p.x) (hy : p'.y = p.y)
+    (hxs : p'.xs = p.xs) (hmb : p'.mb = p.mb)
     (hw : p'.w = true ∨ p'.w = p.w) (hsb : p'.sb = p.sb) (hpb : p'.pb = p.pb)
     (hrb : c.isRaw = true → p'.rb = true) (hrpb : c.resetParser = true → p'.rpb = true) :
     Inv jid U NR p' c := by
@@ -19,11 +20,11 @@ theorem Inv.repar (h : Inv jid U NR p c) (p' : Par) (hx : p'.x = p.x) (hy : p'.y
   · rcases hw with hw | hw
     · exact { h.q with q_n := fun a => by rw [hw] at a; cases a }
     · rw [hw]; exact h.q
-  · rw [hx, hy]; exact h.h
+  · rw [hx, hy, hxs, hmb]; exact h.h
   · exact ⟨by rw [hsb]; exact h.f.st, by rw [hpb]; exact h.f.ps, hrb, hrpb, h.f.rp⟩
 
 theorem Inv.weakRpb (h : Inv jid U NR p c) : Inv jid U NR { p with rpb := true } c :=
-  h.repar _ rfl rfl (Or.inr rfl) rfl rfl h.f.rw (fun _ => rfl)
+  h.repar _ rfl rfl rfl rfl (Or.inr rfl) rfl rfl h.f.rw (fun _ => rfl)
 
 /-! ### `_handle_sasl_result` -/
 
@@ -116,7 +117,7 @@ theorem Inv.smQueueResend (h : Inv jid U NR p c) (hw : p.w = true) :
 theorem Inv.resendSuccess (h : Inv jid U NR p c) (hc : HC p c) (hlive : c.state = .connected)
     (hneg : NegOk c.g) :
     Inv jid U NR { p with w := false } (Conn.negotiationSuccess (Conn.smQueueResend c)) := by
-  have h1 := (h.repar { p with w := true } rfl rfl (Or.inl rfl) rfl rfl h.f.rw h.f.rpB).smQueueResend rfl
+  have h1 := (h.repar { p with w := true } rfl rfl rfl rfl (Or.inl rfl) rfl rfl h.f.rw h.f.rpB).smQueueResend rfl
   obtain ⟨q, n, r, e⟩ := smQueueResend_shape c
   rw [e] at h1 ⊢
   exact h1.negotiationSuccess hc.nil hlive hc.nn hneg hc.rpb hc.pb
@@ -138,7 +139,7 @@ theorem HC.setSm (hc : HC p c) (S : SmState) : HC p { c with sm := S } :=
   ⟨hc.nil, hc.nn, hc.rpb, hc.pb, hc.sb, hc.rb⟩
 
 theorem Inv.unW (h : Inv jid U NR { p with w := false } c) (hw : p.w = false) : Inv jid U NR p c :=
-  h.repar p rfl rfl (Or.inr hw) rfl rfl h.f.rw h.f.rpB
+  h.repar p rfl rfl rfl rfl (Or.inr hw) rfl rfl h.f.rw h.f.rpB
 
 def hsmC2 (c1 : Conn) (st : XTree) (cn : Bytes) : Conn :=
   if cn = b "item-not-found" then
@@ -343,7 +344,7 @@ theorem Inv.setBound (h : Inv jid U NR p c) (hnc : c.state ≠ .connecting) (bj 
   have gr : GhostGrow c.g { c.g with bound := true } :=
     ⟨rfl, id, fun _ => id, id, id, id, id, id, fun _ => rfl, id, rfl⟩
   exact ⟨h.cfg, h.q, h.e.grow gr, h.gg.grow gr (fun a => absurd a hnc),
-    h.h.weaken rfl rfl (fun _ => rfl) id id (fun a => ⟨a, id⟩) id id, h.f, h.ts⟩
+    h.h.weaken rfl rfl (fun _ => rfl) id id (fun a => ⟨a, id⟩) id id (fun a => Or.inl a), h.f, h.ts⟩
 
 theorem Inv.hbResult (h : Inv jid U NR p c) (hc : HC p c) (hw : p.w = false) (hlive : c.state = .connected)
     (ha : c.g.authOk = true) (hsm : c.sm.enabled = false) (st : XTree) :
@@ -397,7 +398,7 @@ theorem Inv.handleSession (h : Inv jid U NR p c) (hc : HC p c) (hw : p.w = false
 theorem Inv.setGhostFlag (h : Inv jid U NR p c) (hnc : c.state ≠ .connecting) (g' : Ghost)
     (gr : GhostGrow c.g g') (ha : g'.authOk = c.g.authOk) : Inv jid U NR p { c with g := g' } := by
   refine ⟨h.cfg, ?_, h.e.grow gr, h.gg.grow gr (fun a => absurd a hnc),
-    h.h.weaken ha gr.nc gr.bound gr.resumed id (fun a => ⟨a, id⟩) id id, h.f, h.ts⟩
+    h.h.weaken ha gr.nc gr.bound gr.resumed id (fun a => ⟨a, id⟩) id id (fun a => Or.inl a), h.f, h.ts⟩
   have := h.q; dsimp only; rw [gr.nc]; exact this
 
 theorem Inv.handleLegacy (h : Inv jid U NR p c) (hc : HC p c) (hw : p.w = false) (hlive : c.state = .connected)
@@ -489,17 +490,19 @@ theorem not_hdr_response (t : Bool) : isHdrFrom (.response t) → False := by
 /-- a pending negotiation handler runs; `keep = false`: it is removed afterwards -/
 theorem Inv.runSys (h : Inv jid U NR p c) (hx : p.x = none) (pc : PC p) (hw : p.w = false)
     (hlive : c.state = .connected) {u : Nat} {K : SysH} {usr : Bool}
-    (hk : (u, HFun.sys K, usr) ∈ keys c) (hK : K ≠ .error) (st : XTree) :
-    ((Conn.runSys c K st).2 = false → Inv jid U NR { p with x := some u, rpb := true } (Conn.runSys c K st).1) ∧
+    (hk : (u, HFun.sys K, usr) ∈ keys c) (hK : K ≠ .error) (xs : Bool)
+    (hside : (xs = true → (u, HFun.sys K, usr) ∈ c.handlers.map hkey) ∧
+      (xs = false → (u, HFun.sys K, usr) ∈ c.idHandlers.map hkey)) (st : XTree) :
+    ((Conn.runSys c K st).2 = false → Inv jid U NR { p with x := some u, xs := xs, rpb := true } (Conn.runSys c K st).1) ∧
     ((Conn.runSys c K st).2 = true → Inv jid U NR { p with rpb := true } (Conn.runSys c K st).1) := by
   obtain ⟨hnn, hph⟩ := h.pend_phase hx hk hK
-  have pc' : PC { p with x := some u } := pc.setX _
-  have hw' : ({ p with x := some u } : Par).w = false := hw
+  have pc' : PC { p with x := some u, xs := xs } := pc.setX _ _
+  have hw' : ({ p with x := some u, xs := xs } : Par).w = false := hw
   by_cases hKf : K = .features
   · subst hKf
-    exact ⟨fun _ => (h.handleFeatures hx pc hk st).weakRpb, fun a => (by cases a)⟩
-  obtain ⟨h1, hnil⟩ := h.enter hx hk hK (h.no_mf hx hk hK hKf)
-  have hc : HC { p with x := some u } c := pc'.hc hnil hnn
+    exact ⟨fun _ => (h.handleFeatures hx pc hk xs hside st).weakRpb, fun a => (by cases a)⟩
+  obtain ⟨h1, hnil⟩ := h.enter hx hk hK (h.no_mf hx hk hK hKf) xs hside
+  have hc : HC { p with x := some u, xs := xs } c := pc'.hc hnil hnn
   cases K with
   | error => exact absurd rfl hK
   | features => exact absurd rfl hKf
@@ -516,8 +519,8 @@ theorem Inv.runSys (h : Inv jid U NR p c) (hx : p.x = none) (pc : PC p) (hw : p.
     split
     · split
       · refine ⟨fun _ => ?_, fun a => (by cases a)⟩
-        apply Inv.weakRpb
-        refine Inv.sendStanzaLib ?_ _ _ (by simp) ?_ (fun _ => not_hdr_response _)
+        refine Inv.weakRpb (p := { p with x := some u, xs := xs }) ?_
+        refine Inv.sendStanzaLib ?_ (.response true) .strophe (by simp) ?_ (fun _ hh => (not_hdr_response _ hh).elim)
         · exact h1.addHandler _ _ _ _ _ _ (by simp) (fun s hs _ => by cases hs; exact hc.canAdd hph)
         · intro _ _ _
           obtain ⟨l, n, e1, _⟩ := addHandler_shape c (.sys .digestRspauth) 0 (some Gen.nsSasl) none none false
@@ -526,14 +529,14 @@ theorem Inv.runSys (h : Inv jid U NR p c) (hx : p.x = none) (pc : PC p) (hw : p.
     · exact ⟨fun _ => h1.handleSaslResult hc hph st, fun a => (by cases a)⟩
   | digestRspauth =>
     have hs : Inv jid U NR { p with rpb := true } (Conn.sendStanza c (.response false) .strophe) :=
-      (h.sendStanzaLib _ _ (by simp) (fun _ _ _ => hph) (fun _ hh => (not_hdr_response _ hh).elim)).weakRpb
+      (h.sendStanzaLib (.response false) .strophe (by simp) (fun _ _ _ => hph) (fun _ hh => (not_hdr_response _ hh).elim)).weakRpb
     unfold Conn.runSys; dsimp only
     split
     · exact ⟨fun a => (by cases a), fun _ => hs⟩
     · exact ⟨fun _ => h1.handleSaslResult hc hph st, fun a => (by cases a)⟩
   | scramChallenge ctx alg =>
     have hs : Inv jid U NR { p with rpb := true } (Conn.sendStanza c (.response true) .strophe) :=
-      (h.sendStanzaLib _ _ (by simp) (fun _ _ _ => hph) (fun _ hh => (not_hdr_response _ hh).elim)).weakRpb
+      (h.sendStanzaLib (.response true) .strophe (by simp) (fun _ _ _ => hph) (fun _ hh => (not_hdr_response _ hh).elim)).weakRpb
     unfold Conn.runSys; dsimp only
     repeat' split
     all_goals first
@@ -546,7 +549,7 @@ theorem Inv.runSys (h : Inv jid U NR p c) (hx : p.x = none) (pc : PC p) (hw : p.
     unfold Conn.runSys; dsimp only
     split
     · refine ⟨fun _ => Inv.connOpenStream ?_, fun a => (by cases a)⟩
-      exact h1.prepReset hc .openSasl ⟨fun a => by rcases a with a | a <;> cases a, fun _ => hph.1⟩ hph.2 true
+      exact h1.prepReset hc .openSasl ⟨fun a => (by rcases a with a | a <;> cases a), fun _ => hph.1⟩ hph.2 true
     · exact ⟨fun _ => h1.weakRpb, fun a => (by cases a)⟩
   | componentHs =>
     unfold Conn.runSys; dsimp only
